@@ -574,11 +574,11 @@ def load_tempo(filename, delimiter=r"\s+", comment="#"):
         filename, [float, float, float], delimiter=delimiter, comment=comment
     )
 
-    weight = weight[0]
-    tempi = np.concatenate([t1, t2])
-
     if len(t1) != 1:
         raise ValueError("Tempo file should contain only one line.")
+
+    weight = weight[0]
+    tempi = np.concatenate([t1, t2])
 
     # Validate them, but throw a warning in place of an error
     try:
